@@ -275,7 +275,7 @@ pub struct TocCase {
     pub tamper_leaf: u16,
 }
 
-fn leaves<'a>(key: &'a str, v: &'a mut Value, out: &mut Vec<(&'a str, &'a mut Value)>) {
+pub fn leaves<'a>(key: &'a str, v: &'a mut Value, out: &mut Vec<(&'a str, &'a mut Value)>) {
     match v {
         Value::Array(a) => {
             for x in a.iter_mut() {
@@ -294,7 +294,7 @@ fn leaves<'a>(key: &'a str, v: &'a mut Value, out: &mut Vec<(&'a str, &'a mut Va
 
 const FREE_TEXT_KEYS: &[&str] = &["uri", "title", "search_text", "kind", "track", "issuer", "model", "tags", "labels", "content_dates", "path", "source_path", "mime"];
 
-fn set_leaf(key: &str, l: &mut Value, v: u64) {
+pub fn set_leaf(key: &str, l: &mut Value, v: u64) {
     match l {
         Value::Bool(b) => *b = !*b,
         Value::Number(n) => {
